@@ -40,6 +40,12 @@ type c11Scenario struct {
 	Sync      bool     `json:"sync"`    // callbacks fire inside sendRequest
 	Stderr    []string `json:"stderr"`  // chunks written to stderr (reference server only)
 	Marks     []string `json:"marks"`   // per position: "", failing, flaky (used by the C04 judge)
+	// StderrFirst: the server writes its stderr output before it answers the start-up request, and
+	// (as on a pipe) does not get any further until somebody has read it
+	StderrFirst bool `json:"stderr_first,omitempty"`
+	// RawReq: the cases carry a raw HTTP request; ClientCerts: the server instance uses client certificates
+	RawReq      bool `json:"raw_req,omitempty"`
+	ClientCerts bool `json:"client_certs,omitempty"`
 }
 
 // --- scripted server process -------------------------------------------------
@@ -81,6 +87,9 @@ func (s *c11Server) starter() processStarter {
 				gate.PointIf("server.respond", func() bool {
 					s.mu.Lock()
 					defer s.mu.Unlock()
+					if s.sc.StderrFirst && pipeStderr && !s.exited && (len(s.errEmitted) < len(strings.Join(s.sc.Stderr, "")) || len(s.errbuf) > 0) {
+						return false // still blocked writing to its stderr pipe
+					}
 					return s.gotRequest != nil || s.exited || s.sc.Resp == "eof"
 				})
 				s.respond()
@@ -317,6 +326,7 @@ func (r *c11Stderr) Read(p []byte) (int, error) {
 			n := copy(p, s.errbuf)
 			s.errbuf = s.errbuf[n:]
 			s.mu.Unlock()
+			gate.Poke()
 			return n, nil
 		}
 		if s.errClosed {
@@ -459,6 +469,9 @@ func c11Cases(sc c11Scenario) []*conformancev1.TestCase {
 			},
 			ExpectedResponse: &conformancev1.ClientResponseResult{Payloads: []*conformancev1.ConformancePayload{{Data: []byte("ok")}}},
 		})
+		if sc.RawReq {
+			out[i].Request.RawRequest = &conformancev1.RawHTTPRequest{Verb: "POST", Uri: "/svc/Method", Headers: []*conformancev1.Header{{Name: "x-raw", Value: []string{"1"}}}}
+		}
 	}
 	return out
 }
@@ -538,9 +551,13 @@ func c11RunOne(t *testing.T, sc c11Scenario, prefix []int, expect []gate.PointRe
 			if sc.TLS {
 				creds = &conformancev1.TLSCreds{Cert: []byte("cert"), Key: []byte("key")}
 			}
+			var clientCreds *conformancev1.TLSCreds
+			if sc.ClientCerts {
+				clientCreds = &conformancev1.TLSCreds{Cert: []byte("client-cert"), Key: []byte("client-key")}
+			}
 			runTestCasesForServer(ctx, sc.RefClient, sc.RefServer,
-				serverInstance{protocol: conformancev1.Protocol_PROTOCOL_CONNECT, httpVersion: conformancev1.HTTPVersion_HTTP_VERSION_1, useTLS: sc.TLS},
-				cases, creds, nil, srv.starter(), logPrinter, errPrinter, results, cl, nil, false)
+				serverInstance{protocol: conformancev1.Protocol_PROTOCOL_CONNECT, httpVersion: conformancev1.HTTPVersion_HTTP_VERSION_1, useTLS: sc.TLS, useTLSClientCerts: sc.ClientCerts},
+				cases, creds, clientCreds, srv.starter(), logPrinter, errPrinter, results, cl, nil, false)
 			retMu.Lock()
 			returned = true
 			retMu.Unlock()
@@ -686,6 +703,59 @@ func c11Judge(sc c11Scenario, obs *c11Obs, x *gate.Exec) []gateVerdict {
 		after, ok2 := obs.AfterReport[n]
 		if ok1 && ok2 && before.setupError && before.actualFailure != nil && (!after.setupError || after.actualFailure == nil) {
 			add("setup-error-lost-in-report", "case %q was recorded as a setup error (%v) but after the report it is setup=%v failure=%v", n, before.actualFailure, after.setupError, after.actualFailure)
+		}
+	}
+	// with a usable server that stays up and a client that accepts everything, every case of
+	// the batch must actually be handed to the client
+	if !broken && sc.Resp == "ok" && sc.ExitAfter < 0 && sc.SendErrAt < 0 {
+		for _, n := range obs.Names {
+			if _, ok := sentIdx[n]; !ok {
+				add("case-not-sent-although-peers-healthy", "case %q was never handed to the client although the server answered and stayed up and the client accepted everything (outcome: %+v)", n, obs.Outcomes[n])
+			}
+		}
+	}
+	// what the runner adds to a request must reach both forms of it: the ordinary request
+	// headers and, where the case carries a raw request, the raw request's headers
+	for _, r := range obs.Sent {
+		want := map[string]string{"x-test-case-name": r.TestName}
+		if sc.RefServer {
+			want["x-expect-http-version"], want["x-expect-protocol"], want["x-expect-codec"], want["x-expect-compression"] = "", "", "", ""
+			want["x-expect-http-method"], want["x-expect-tls"] = "", ""
+			if sc.ClientCerts {
+				want["x-expect-client-cert"] = ""
+			}
+		}
+		check := func(what string, hdrs []*conformancev1.Header) {
+			have := map[string][]string{}
+			for _, h := range hdrs {
+				have[strings.ToLower(h.Name)] = append(have[strings.ToLower(h.Name)], h.Value...)
+			}
+			for name, val := range want {
+				vs := have[name]
+				if len(vs) != 1 || (val != "" && vs[0] != val) {
+					add("runner-header-missing:"+what+":"+name, "request for %q: %s lack the runner's header %s (have %v)", r.TestName, what, name, vs)
+				}
+			}
+		}
+		check("request headers", r.RequestHeaders)
+		if r.RawRequest != nil {
+			check("raw request headers", r.RawRequest.Headers)
+			if sc.RefServer {
+				a, b := map[string]string{}, map[string]string{}
+				for _, h := range r.RequestHeaders {
+					if strings.HasPrefix(strings.ToLower(h.Name), "x-expect-") {
+						a[strings.ToLower(h.Name)] = strings.Join(h.Value, ",")
+					}
+				}
+				for _, h := range r.RawRequest.Headers {
+					if strings.HasPrefix(strings.ToLower(h.Name), "x-expect-") {
+						b[strings.ToLower(h.Name)] = strings.Join(h.Value, ",")
+					}
+				}
+				if fmt.Sprint(a) != fmt.Sprint(b) {
+					add("raw-request-expectations-differ", "request for %q: expectation headers %v, raw request carries %v", r.TestName, a, b)
+				}
+			}
 		}
 	}
 	for _, n := range obs.SentDead {
@@ -899,6 +969,22 @@ func c11Scenarios(thorough bool) []c11Scenario {
 			s.SendErrAt = -1
 			out = append(out, s)
 		}
+		// a reference server that logs before it answers (and blocks on that, as on a pipe)
+		for _, st := range [][]string{{"starting up\n"}, {"s/c0: early feedback\n", "more\n"}} {
+			s := base(n)
+			s.RefServer, s.Stderr, s.StderrFirst = true, st, true
+			out = append(out, s)
+		}
+		// raw requests and client certificates: what the runner adds must reach both header lists
+		for _, ref := range []bool{false, true} {
+			for _, certs := range []bool{false, true} {
+				s := base(n)
+				s.RefServer, s.RawReq, s.ClientCerts, s.TLS = ref, true, certs, certs
+				out = append(out, s)
+				s.RawReq = false
+				out = append(out, s)
+			}
+		}
 		// reference client feedback
 		for _, a := range []string{"pass+fb", "mismatch+fb"} {
 			s := base(n)
@@ -946,5 +1032,31 @@ func TestVerifC09CallSites(t *testing.T) {
 	gateExplore(t, r, scs, 1, func(sc c11Scenario, prefix []int, expect []gate.PointRec) gateRun {
 		x, obs, leak := c11RunOne(t, sc, prefix, expect)
 		return gateRun{x: x, outcome: c11Outcome(sc, obs), verdicts: c11Judge(sc, obs, x), leak: leak}
+	})
+}
+
+
+// TestVerifC12RunnerHeaders is C12's view of the runner's side of the contract: the
+// expectation headers the reference server checks against are attached by
+// runTestCasesForServer, to the ordinary request headers and to a raw request's headers alike.
+func TestVerifC12RunnerHeaders(t *testing.T) {
+	r := rep.New("c12-runner-headers")
+	defer r.Write()
+	r.Rule = "batches of 1-3 cases with and without a raw HTTP request, with and without client certificates, against a reference and a non-reference server, through the real runTestCasesForServer; every request handed to the client must carry the test name and (reference server) every x-expect-* header in both header lists; all orders of peer events; non-trivial = distinct (scenario, choice list)"
+	var scs []c11Scenario
+	for _, sc := range c11Scenarios(true) {
+		if sc.N <= 3 && (sc.RawReq || sc.ClientCerts) {
+			scs = append(scs, sc)
+		}
+	}
+	gateExplore(t, r, scs, 1, func(sc c11Scenario, prefix []int, expect []gate.PointRec) gateRun {
+		x, obs, leak := c11RunOne(t, sc, prefix, expect)
+		var vs []gateVerdict
+		for _, v := range c11Judge(sc, obs, x) {
+			if strings.HasPrefix(v.key, "runner-header-missing") || v.key == "raw-request-expectations-differ" {
+				vs = append(vs, v)
+			}
+		}
+		return gateRun{x: x, outcome: c11Outcome(sc, obs), verdicts: vs, leak: leak}
 	})
 }
